@@ -866,3 +866,63 @@ def rule_no_vm_bound_values_on_objects(ctx, rep, rid: str) -> None:
                 else:
                     rep.bad(rid, key, f"{f.qual} stores an interpreter-bound method ({short(a.value, 40)}) in {holder}: the object outlives the eval, so a later eval calling the cached method runs its callbacks on the finished interpreter (its start time, call stack and handler records)", f"{f.module.rel}:{a.lineno}")
     rep.ok(rid, "interpreter-bound-values", {"stores_examined": n, "factories": sorted(producers)})
+
+
+# ---- the running-interpreter pointer is handed back, not cleared ---------------------------------------------
+
+
+def rule_running_interpreter_handed_back(ctx, rep, rid: str) -> None:
+    """Natives find the evaluation they belong to through the context's pointer to the running interpreter (eval,
+    Function and regular expressions take its deadline and host-stack budget).  Context methods are callable from host
+    functions, which run while a script is being evaluated: a method that publishes its own interpreter in the
+    pointer and CLEARS it when it is done leaves the outer evaluation without its interpreter - whatever it creates
+    afterwards starts a clock of its own.  The value the pointer had before is what goes back."""
+    rep.rule(rid, "a method of the context that publishes an interpreter in the running-interpreter pointer saves the previous value first and puts THAT back on every way out (never a constant None), and the interpreter it publishes takes the start time of the previous one when there is one", floor=1)
+    t = ctx.tree
+    ev = t.func("context:Context.eval")
+    vmcls = ctx.facts.vm_dispatcher()[0].cls
+    ctxcls = ev.cls
+    n = 0
+    for m in ctxcls.all_methods:
+        if isinstance(m.node, ast.Lambda):
+            continue
+        lt = ctx.cg.local_types(m)
+        pubs = [a for a in m.own_nodes() if isinstance(a, ast.Assign) and isinstance(a.value, ast.Name) and lt.get(a.value.id) is vmcls and any(isinstance(tg, ast.Attribute) and norm(tg.value) == "self" for tg in a.targets)]
+        for a in pubs:
+            attr = next(tg.attr for tg in a.targets if isinstance(tg, ast.Attribute) and norm(tg.value) == "self")
+            n += 1
+            key = f"{m.qual}:{attr}:handed-back"
+            saved = {x.targets[0].id for x in m.own_nodes() if isinstance(x, ast.Assign) and len(x.targets) == 1 and isinstance(x.targets[0], ast.Name) and norm(x.value) == f"self.{attr}" and x.lineno <= a.lineno}
+            writes = [x for x in m.own_nodes() if isinstance(x, ast.Assign) and x is not a and any(norm(tg) == f"self.{attr}" for tg in x.targets)]
+            consts = [x for x in writes if isinstance(x.value, ast.Constant)]
+            backs = [x for x in writes if isinstance(x.value, ast.Name) and x.value.id in saved]
+            if consts:
+                rep.bad(rid, key, f"{m.qual} publishes its interpreter in self.{attr} (line {a.lineno}) and sets the pointer to {norm(consts[0].value)} when it is done (line {consts[0].lineno}) instead of to the value it had before: called from a host function while a script runs, it leaves the outer evaluation without its interpreter, and the eval()/Function/RegExp that evaluation creates afterwards get a fresh clock and a fresh host-stack budget", f"{m.module.rel}:{consts[0].lineno}")
+                continue
+            if not backs:
+                rep.bad(rid, key, f"{m.qual} publishes its interpreter in self.{attr} (line {a.lineno}) and never puts the previous value back", f"{m.module.rel}:{a.lineno}")
+                continue
+            # the published interpreter joins the previous one: its start time comes from the saved pointer when there is one
+            v = a.value.id
+            made_here = any(isinstance(x, ast.Assign) and len(x.targets) == 1 and norm(x.targets[0]) == v and isinstance(x.value, ast.Call) and norm(x.value.func) == vmcls.name for x in m.own_nodes())
+            if not made_here:
+                # a parameter, or the product of a factory: whoever makes the interpreter gives it its clock (C01-R11)
+                rep.ok(rid, key, {"saved_in": sorted(saved), "restored_at": [x.lineno for x in backs], "interpreter": "made elsewhere"})
+                continue
+            der = _derived_from(m, saved) | saved
+            joins = any(isinstance(c, ast.Call) and isinstance(c.func, ast.Attribute) and norm(c.func.value) == v and "clock" in c.func.attr and any(isinstance(y, ast.Name) and y.id in der for y in ast.walk(c)) for c in m.own_nodes()) or any(isinstance(x, ast.Assign) and any(norm(tg) == f"{v}.start_time" for tg in x.targets) and any(isinstance(y, ast.Name) and (y.id in saved or y.id in _derived_from(m, saved)) for y in ast.walk(x.value)) for x in m.own_nodes())
+            if joins:
+                rep.ok(rid, key, {"saved_in": sorted(saved), "restored_at": [x.lineno for x in backs]})
+            else:
+                rep.bad(rid, key, f"{m.qual} hands the previous interpreter back but starts a clock of its own for the one it publishes ({v}.start_time does not come from the previous interpreter): an evaluation nested through a host function gets a whole new time limit at every level", f"{m.module.rel}:{a.lineno}")
+    if n == 0:
+        rep.ok(rid, "no-pointer", {"note": "the context does not publish its interpreter"})
+
+
+def _derived_from(m, names) -> Set[str]:
+    """locals of m whose value mentions one of `names` (one step: `started = clock() if outer is None else outer.start_time`)."""
+    out = set()
+    for x in m.own_nodes():
+        if isinstance(x, ast.Assign) and len(x.targets) == 1 and isinstance(x.targets[0], ast.Name) and any(isinstance(y, ast.Name) and y.id in names for y in ast.walk(x.value)):
+            out.add(x.targets[0].id)
+    return out
